@@ -278,6 +278,16 @@ class PythonExpressionMapper(_LeftNestedPowerMixin, StringifyMapper):
                     self.rec(expr.right, PREC_COMPARISON + 1, *args, **kwargs)),
                 enclosing_prec, PREC_COMPARISON)
 
+    def map_logical_not(self, expr, enclosing_prec, *args, **kwargs):
+        from pymbolic.mapper.stringifier import PREC_COMPARISON
+
+        # In Python, "not" binds less tightly than comparisons (but more
+        # tightly than "and"): "a == not b" is a syntax error.
+        prec_not = PREC_COMPARISON - 0.5
+        return self.parenthesize_if_needed(
+                "not " + self.rec(expr.child, prec_not, *args, **kwargs),
+                enclosing_prec, prec_not)
+
     def map_if(self, expr, enclosing_prec):
         from dagrt.expression import PREC_IFTHENELSE
         return self.parenthesize_if_needed(
